@@ -41,6 +41,11 @@ theorem cache_cfg_table :
     (∀ f ∈ BLDFM.Fld.determining, f ∈ cacheCfg.keyFields) ∧ cacheCfg.haloResolvedAtGet = true ∧
     cacheCfg.haloResolvedAtPut = true ∧ cacheCfg.atomicWrite = true ∧ cacheCfg.guardedLoad = true := by decide
 
+/-- C19: `estimateZ0` — raw roughness length, outlier removal, and the 1-degree bins with the wrapped ±half-window
+median (wrap thresholds 90 / 270, inclusive lower and exclusive upper edge), as modelled by `z0Wrap` / `z0InWindow` -/
+theorem estimateZ0_steps_table :
+    estimateZ0Steps = ["k = von_karman", "n_obs = len(zm)", "if n_obs != len(ws) or n_obs != len(wd) or n_obs != len(ustar) or (n_obs != len(mo_len)):", "raise RuntimeError('Input parameters must be of the same length!')", "psi_m = _psiM(zm, mo_len)", "z0 = zm * np.exp(psi_m - k * ws / ustar)", "z0[z0 > 1000] = np.nan", "if half_wd_win < 1:", "return z0", "z0med = np.zeros_like(z0) + np.nan", "for kk in range(0, 360):", "wd_wrapped = wd.copy()", "if kk < 90:", "wd_wrapped[wd > 270] = wd[wd > 270] - 360", "elif kk > 270:", "wd_wrapped[wd < 90] = wd[wd < 90] + 360", "idx1 = np.logical_and(wd >= kk, wd < kk + 1)", "idx2 = np.logical_and(wd_wrapped >= kk - half_wd_win, wd_wrapped < kk + 1 + half_wd_win)", "z0med[idx1] = np.nanmedian(z0[idx2])", "return z0med"] := rfl
+
 /-- C08/C17: tower coordinates are converted whenever a reference origin is configured (`is not None` — an
 origin on the equator or the prime meridian is an origin), with (lat, lon, ref_lat, ref_lon) in this order -/
 theorem tower_local_xy_table :
